@@ -2,9 +2,13 @@ pub mod astwalk;
 pub mod corpus;
 pub mod ddmin;
 pub mod evidence;
+pub mod exprgen;
+pub mod fmtcheck;
 pub mod front;
 pub mod mutate;
 pub mod pipeline;
+#[cfg(feature = "pgen")]
+pub mod pgen;
 pub mod pool;
 pub mod toks;
 pub use heapmon::rng;
